@@ -192,6 +192,37 @@ where
     if mode() == MODE_L1A { Some(fam21::update_counter_ref(this, mi)) } else { None }
 }
 
+/// ghost record of what the any-action stub wrote for machines 0..4 in the current harness
+/// (kind 0 none, 1 cancel, 2 padding, 3 blocking, 4 timer)
+#[derive(Clone, Copy)]
+pub struct AnyAction {
+    pub kind: u8,
+    pub timeout_us: u64,
+    pub duration_us: u64,
+    pub bypass: bool,
+    pub replace: bool,
+    pub timer: u8,
+}
+pub static mut AA_LAST: [AnyAction; 4] = [AnyAction { kind: 0, timeout_us: 0, duration_us: 0, bypass: false, replace: false, timer: 0 }; 4];
+pub static mut AA_CALLS: usize = 0;
+/// the timeout / duration values of the last written action as the caller's own duration type
+/// (raw bytes: the stub is generic over the clock; the harness knows the concrete type)
+pub static mut AA_TIMEOUT_BYTES: [u8; 16] = [0; 16];
+pub static mut AA_DURATION_BYTES: [u8; 16] = [0; 16];
+pub fn aa_timeout<D: Copy>() -> D {
+    assert!(core::mem::size_of::<D>() <= 16);
+    unsafe { core::ptr::read_unaligned(AA_TIMEOUT_BYTES.as_ptr() as *const D) }
+}
+pub fn aa_duration<D: Copy>() -> D {
+    assert!(core::mem::size_of::<D>() <= 16);
+    unsafe { core::ptr::read_unaligned(AA_DURATION_BYTES.as_ptr() as *const D) }
+}
+pub fn aa_last(mi: usize) -> AnyAction {
+    unsafe { AA_LAST[mi] }
+}
+pub fn aa_calls() -> usize {
+    unsafe { AA_CALLS }
+}
 /// see export.rs: any well-formed action (or none) is written into the slot of machine `mi`
 pub fn transition_any_action_impl<M, R, T>(this: &mut Framework<M, R, T>, mi: usize, _event: Event) -> StateChange
 where
@@ -199,25 +230,33 @@ where
     R: RngCore,
     T: crate::time::Instant,
 {
-    assert!(mi < this.actions.len(), "C01: a machine step is only ever taken for a machine that exists");
+    assert!(mi < this.actions.len() && mi < 4, "C01: a machine step is only ever taken for a machine that exists");
     let to: u64 = kani::any();
     let du: u64 = kani::any();
     kani::assume(to <= DAY_US && du <= DAY_US);
     let m = MachineId::from_raw(mi);
     let k: u8 = kani::any();
     kani::assume(k < 5);
+    let (bypass, replace): (bool, bool) = (kani::any(), kani::any());
+    let t: u8 = kani::any();
+    kani::assume(t < 3);
+    unsafe {
+        AA_CALLS += 1;
+        AA_LAST[mi] = AnyAction { kind: k, timeout_us: to, duration_us: du, bypass, replace, timer: t };
+    }
+    let timeout = T::Duration::from_micros(to);
+    let duration = T::Duration::from_micros(du);
+    unsafe {
+        assert!(core::mem::size_of::<T::Duration>() <= 16);
+        core::ptr::write_unaligned(AA_TIMEOUT_BYTES.as_mut_ptr() as *mut T::Duration, timeout);
+        core::ptr::write_unaligned(AA_DURATION_BYTES.as_mut_ptr() as *mut T::Duration, duration);
+    }
     this.actions[mi] = match k {
         0 => None,
-        1 => Some(TriggerAction::Cancel { machine: m, timer: any_timer() }),
-        2 => Some(TriggerAction::SendPadding { timeout: T::Duration::from_micros(to), bypass: kani::any(), replace: kani::any(), machine: m }),
-        3 => Some(TriggerAction::BlockOutgoing {
-            timeout: T::Duration::from_micros(to),
-            duration: T::Duration::from_micros(du),
-            bypass: kani::any(),
-            replace: kani::any(),
-            machine: m,
-        }),
-        _ => Some(TriggerAction::UpdateTimer { duration: T::Duration::from_micros(du), replace: kani::any(), machine: m }),
+        1 => Some(TriggerAction::Cancel { machine: m, timer: timer_of(t) }),
+        2 => Some(TriggerAction::SendPadding { timeout, bypass, replace, machine: m }),
+        3 => Some(TriggerAction::BlockOutgoing { timeout, duration, bypass, replace, machine: m }),
+        _ => Some(TriggerAction::UpdateTimer { duration, replace, machine: m }),
     };
     StateChange::Unchanged
 }
